@@ -375,3 +375,44 @@ def ip_contents():
                 tag + '::ffff:1.2.3.4', tag + '::ffff:0.2.3.4', tag + '::1.2.3.256', tag + '1:2:3:4:5:6:1.2.3.4', tag + '1:2:3:4:5:1.2.3.4', tag + '1:2:3:4:5:6:7:1.2.3.4',
                 tag + '1.2.3.4', tag + '::1.2.3', tag + '::1.2.3.4.5', tag + '1:2:3:4:5:6:7:8:9', tag + '::12345', tag + '::1 ', tag + ' ::1']
     return [c.encode() for c in out]
+
+# ------------------------------------------------------------------ IDN labels
+SCRIPTS = {
+    'cyrillic': 'абвгдежзийклмнопрстуфхцчшщъыьэюяё', 'greek': 'αβγδεζηθικλμνξοπρστυφχψω', 'han': '中文网络域名测试例子公司',
+    'hangul': '한국도메인테스트삼성', 'arabic': 'ابتثجحخدذرزسشصضطظعغفقكلمنهوي', 'hebrew': 'אבגדהוזחטיכלמנסעפצקרשת',
+    'devanagari': 'कखगघचछजझटठडढणतथदधनपफबभमयरलवशषसह', 'latin1': 'àáâãäåæçèéêëìíîïñòóôõöøùúûüýþÿ', 'ascii': 'abcxyz019', 'digits': '0123456789',
+}
+def idn_labels(rnd, n):
+    out = []
+    names = list(SCRIPTS)
+    for _ in range(n):
+        sc = rnd.choice(names)
+        k = rnd.choice([1, 2, 3, 5, 8, 15, 30])
+        lab = ''.join(rnd.choice(SCRIPTS[sc]) for _ in range(k))
+        r = rnd.random()
+        if r < 0.08: lab = '-' + lab
+        elif r < 0.16: lab = lab + '-'
+        elif r < 0.22: lab = lab[:2] + '--' + lab[2:]
+        elif r < 0.28: lab = lab + rnd.choice(['!', '_', ' ', '‍', '­', '☕', 'ß', 'ς', 'A', 'Ä'])
+        elif r < 0.32: lab = 'xn--' + lab
+        out.append(lab)
+    return out
+
+def idn_domains(rnd, n):
+    labs = idn_labels(rnd, n * 2)
+    tlds = ['рф', 'com', 'xn--p1ai', '中国', 'في', 'test', 'example', 'εε', 'zz-nosuch', '한국']
+    out = []
+    for i in range(n):
+        k = rnd.choice([1, 1, 2, 3])
+        parts = [rnd.choice(labs) for _ in range(k)] + ([rnd.choice(tlds)] if rnd.random() < 0.8 else [])
+        out.append('.'.join(parts).encode('utf-8'))
+    # long U-label spellings whose A-label form is short: total UTF-8 length around the 253/255 limits
+    for total in range(118, 132):
+        a, b = total // 3, total - 2 * (total // 3)
+        for ch in ('я', 'ж', 'α'):
+            out.append((ch * a + '.' + ch * a + '.' + ch * b + '.рф').encode())
+            out.append((ch * a + '.' + ch * a + '.' + ch * b + '.com').encode())
+    # malformed UTF-8 and over-long labels
+    out += [b'\xc3.com', b'a\xff.com', b'\xed\xa0\x80.com', b'\xf4\x90\x80\x80.com', b'\xc0\xaf.com', ('я' * 70 + '.рф').encode(), ('я' * 57 + '.рф').encode(),
+            ('日' * 60 + '.com').encode(), b'xn--zz.com', b'xn--a.com', b'xn---abc.com', b'ab--c.com', b'-a.com', b'a-.com', b'xn--80akhbyknj4f.xn--p1ai']
+    return out
